@@ -1,6 +1,6 @@
 /-
   Proofs.C06Pairs — the invariant carried through the operations (`UniqS`: uniqueness among the
-  scalar-keyed, covered documents) in its "ordered pairs" form, and the lemma that a write
+  value-keyed, covered documents) in its "ordered pairs" form, and the lemma that a write
   checked by `_ensure_uniques` cannot create a clash.
 -/
 import Proofs.C06Ensure
@@ -25,10 +25,10 @@ theorem pair_mem {α : Type} {a b : α} {l : List α} (h : [a, b].Sublist l) : a
   ⟨h.subset (by simp), h.subset (by simp)⟩
 
 /-- the documents the carried invariant speaks about -/
-def good (ix : Index) (p : Val × Val) : Bool := scalarKeys ix p.2 && covers ix p.2
+def good (ix : Index) (p : Val × Val) : Bool := valueKeys ix p.2 && covers ix p.2
 
 theorem good_iff {ix : Index} {p : Val × Val} :
-    good ix p = true ↔ scalarKeys ix p.2 = true ∧ covers ix p.2 = true := by
+    good ix p = true ↔ valueKeys ix p.2 = true ∧ covers ix p.2 = true := by
   simp [good]
 
 /-- the two documents do not clash on the index -/
@@ -52,7 +52,7 @@ theorem uniqS_of_uniqInv {c : Coll} (h : UniqInv c) : UniqS c := by
   rw [List.pairwise_iff_forall_sublist] at hp
   exact hp (sublist_pair_filter.2 ⟨hab, (good_iff.1 ha).2, (good_iff.1 hb).2⟩)
 
-theorem uniqInv_of_uniqS {c : Coll} (h : UniqS c) (hs : ScalarInv c) : UniqInv c := by
+theorem uniqInv_of_uniqS {c : Coll} (h : UniqS c) (hs : ValueInv c) : UniqInv c := by
   intro ix hix hu
   obtain ⟨hd, hsc⟩ := hs ix hix hu
   rw [List.pairwise_iff_forall_sublist]
@@ -73,24 +73,24 @@ theorem two_hits {f : Val} {a b : Val × Val} {l : List (Val × Val)} (hab : [a,
     sublist_pair_filter.2 ⟨hab, by simp [ha, isTrue], by simp [hb, isTrue]⟩
   exact this.length_le
 
-/-- after a successful `_ensure_uniques(new)`, a pair of scalar-keyed covered documents one of
+/-- after a successful `_ensure_uniques(new)`, a pair of value-keyed covered documents one of
     which is `new` does not clash -/
 theorem checked_pair' {new : Val} {ix : Index} {docs : List (Val × Val)} (hc : Checked new ix docs)
     (hu : ix.unique = true) (hd : distinctFields ix = true) {a b : Val × Val}
-    (hab : [a, b].Sublist docs) (sa : scalarKeys ix a.2 = true) (ca : covers ix a.2 = true)
-    (sb : scalarKeys ix b.2 = true) (cb : covers ix b.2 = true)
+    (hab : [a, b].Sublist docs) (sa : valueKeys ix a.2 = true) (ca : covers ix a.2 = true)
+    (sb : valueKeys ix b.2 = true) (cb : covers ix b.2 = true)
     (hnew : a.2 = new ∨ b.2 = new) : Rk ix a b := by
-  have oka := okKeys_of_scalarKeys sa
-  have okb := okKeys_of_scalarKeys sb
-  have hsn : scalarKeys ix new = true ∧ covers ix new = true := by
+  have oka := okKeys_of_valueKeys sa
+  have okb := okKeys_of_valueKeys sb
+  have hsn : valueKeys ix new = true ∧ covers ix new = true := by
     rcases hnew with e | e <;> rw [← e]
     · exact ⟨sa, ca⟩
     · exact ⟨sb, cb⟩
-  have okn := okKeys_of_scalarKeys hsn.1
+  have okn := okKeys_of_valueKeys hsn.1
   have hv := valuesFor_ok ix.keys new okn (distinctFields_nodup hd)
   have hcov := hsn.2
   rw [covers_eq, Bool.and_eq_true, Bool.not_eq_true'] at hcov
-  have hskip : (ix.sparse && (kwOf ix.keys new).all isNullKv) = false := by
+  have hskip : (ix.sparse && (kwOf ix.keys new).all isNullCond) = false := by
     rw [kwOf_all_null]; exact hcov.1
   have hle := hc hu _ hv hskip
   unfold Rk
@@ -105,14 +105,14 @@ theorem checked_pair' {new : Val} {ix : Index} {docs : List (Val × Val)} (hc : 
       have := cb; rw [covers_eq, Bool.and_eq_true] at this; exact this.2
     have ka : keyEq (kv ix.keys a.2) (kv ix.keys new) = true := by
       rcases hnew with e | e
-      · rw [← e]; exact keyEq_refl (kv_allScalar oka)
+      · rw [← e]; exact keyEq_refl (kv_allKeyable oka)
       · rw [← e]; exact hk
     have kb : keyEq (kv ix.keys b.2) (kv ix.keys new) = true := by
       rcases hnew with e | e
-      · rw [← e, keyEq_symm (kv_allScalar okb) (kv_allScalar oka)]; exact hk
-      · rw [← e]; exact keyEq_refl (kv_allScalar okb)
-    have h2 := two_hits hab (query_matches ix new a.2 okn oka pa ka)
-      (query_matches ix new b.2 okn okb pb kb)
+      · rw [← e, keyEq_symm (kv_allKeyable okb) (kv_allKeyable oka)]; exact hk
+      · rw [← e]; exact keyEq_refl (kv_allKeyable okb)
+    have h2 := two_hits hab (query_matches ix new a.2 oka pa ka)
+      (query_matches ix new b.2 okb pb kb)
     omega
 
 theorem checked_pair {new : Val} {ix : Index} {docs : List (Val × Val)} (hc : Checked new ix docs)
